@@ -136,6 +136,28 @@ fn utf8(p: &Path) -> jbk::Utf8PathBuf {
     jbk::Utf8PathBuf::from_path_buf(p.to_path_buf()).unwrap()
 }
 
+/// Input fault for the crash engine (E3): content number `.0` of the main pack is handed over as a
+/// file that cannot be read any more when the creator gets to it. Kind 0: the handle is not
+/// readable at all; 1: the file is cut to half its length right after `add_content` returned;
+/// 2: cut to nothing. Set only by `create-child`.
+pub static INPUT_FAULT: std::sync::Mutex<Option<(usize, u8)>> = std::sync::Mutex::new(None);
+
+fn faulty_reader(bytes: &[u8], kind: u8) -> (Box<dyn jbk::creator::InputReader>, Option<(std::fs::File, u64)>) {
+    use std::io::Write;
+    let dir = crate::engine::scratch_root();
+    let mut named = tempfile::NamedTempFile::new_in(dir).unwrap();
+    named.write_all(bytes).unwrap();
+    named.flush().unwrap();
+    if kind == 0 {
+        let f = std::fs::OpenOptions::new().write(true).open(named.path()).unwrap();
+        return (Box::new(jbk::creator::InputFile::new(f).unwrap()), None);
+    }
+    let f = std::fs::OpenOptions::new().read(true).write(true).open(named.path()).unwrap();
+    let cut = f.try_clone().unwrap();
+    let to = if kind == 1 { bytes.len() as u64 / 2 } else { 0 };
+    (Box::new(jbk::creator::InputFile::new(f).unwrap()), Some((cut, to)))
+}
+
 /// Build a container with the high-level creator. Errors/panics of the creator on this
 /// (in-domain) input are failures.
 pub fn build(
@@ -155,10 +177,18 @@ pub fn build(
     let bytes = resolve_contents(&spec.contents);
     {
         let mut add = |adder: &mut dyn jbk::creator::ContentAdder| -> Result<(), Failure> {
-            for (c, b) in spec.contents.iter().zip(bytes.iter()) {
-                match adder.add_content(make_reader(b, c.source), c.hint.to_jbk()) {
+            let fault = *INPUT_FAULT.lock().unwrap();
+            for (k, (c, b)) in spec.contents.iter().zip(bytes.iter()).enumerate() {
+                let (reader, cut) = match fault {
+                    Some((at, kind)) if at == k => faulty_reader(b, kind),
+                    _ => (make_reader(b, c.source), None),
+                };
+                match adder.add_content(reader, c.hint.to_jbk()) {
                     Ok(a) => contents.push((a, b.clone())),
                     Err(e) => fail!("add-error", "add_content: {e}"),
+                }
+                if let Some((f, to)) = cut {
+                    f.set_len(to).unwrap();
                 }
             }
             Ok(())
